@@ -199,16 +199,23 @@ func provablyNonNil(v ssa.Value, b *ssa.BasicBlock, depth int) bool {
 		if arg, ok := errsWrapLike(x.Common()); ok {
 			return provablyNonNil(arg, b, depth+1)
 		}
-		// ctx.Err() after <-ctx.Done() etc. is decided by the caller
+		// ctx.Err() in the select case that received from ctx.Done(); term.Err() after the term signal
+		if ctxErrAfterDone(x, nil) || signalErrAfterSignal(x) {
+			return true
+		}
 	case *ssa.Alloc:
 		return true
 	case *ssa.Phi:
 		all := len(x.Edges) > 0
+		dead := an.InfeasibleEdges(b) // ways in that contradict a flag tested on the way to b
 		for i, e := range x.Edges {
 			// an operand is judged where it flows in: at the end of the predecessor
 			eb := b
 			if i < len(x.Block().Preds) {
 				eb = x.Block().Preds[i]
+				if dead[[2]*ssa.BasicBlock{eb, x.Block()}] {
+					continue
+				}
 			}
 			if !provablyNonNil(e, eb, depth+1) {
 				all = false
@@ -256,18 +263,76 @@ func provablyNonNilCase(v ssa.Value, rc an.RetCase) bool {
 		return true
 	}
 	uv := an.Unwrap(v)
+	// the value itself, or a merged value it was selected from on this way, was tested non-nil
+	same := func(x ssa.Value) bool {
+		rx := an.Resolve(an.Unwrap(x))
+		if sameValue(an.Unwrap(x), uv) || rx == uv {
+			return true
+		}
+		for k, val := range rc.Vals {
+			if val != v || k >= len(rc.Via) {
+				continue
+			}
+			for _, phi := range rc.Via[k] {
+				if rx == phi {
+					return true
+				}
+			}
+		}
+		return false
+	}
 	for _, g := range rc.Guards {
 		x, trueNonNil, ok := nilTestOf(g.Cond)
 		if !ok || g.True != trueNonNil {
 			continue
 		}
-		if sameValue(an.Unwrap(x), uv) || an.Resolve(an.Unwrap(x)) == uv {
+		if same(x) {
 			return true
+		}
+	}
+	// a test of the local variable the value was returned through (named result with a defer)
+	for k, val := range rc.Vals {
+		if val != v {
+			continue
+		}
+		for _, g := range rc.Guards {
+			if nonNil, ok := rc.GuardOnSpilled(g, k); ok && nonNil {
+				return true
+			}
 		}
 	}
 	if call, ok := uv.(*ssa.Call); ok {
 		if arg, ok := errsWrapLike(call.Common()); ok {
 			return provablyNonNilCase(arg, rc)
+		}
+	}
+	return false
+}
+
+// knownNilCase: on this way of returning, a test on the way established that v is nil.
+func knownNilCase(v ssa.Value, rc an.RetCase) bool {
+	if v == nil || an.IsNilConst(v) {
+		return true
+	}
+	uv := an.Unwrap(v)
+	for _, g := range rc.Guards {
+		x, trueNonNil, ok := nilTestOf(g.Cond)
+		if !ok || g.True == trueNonNil {
+			continue
+		}
+		rx := an.Resolve(an.Unwrap(x))
+		if sameValue(an.Unwrap(x), uv) || rx == uv || rx == an.Resolve(uv) {
+			return true
+		}
+		for k, val := range rc.Vals {
+			if val != v || k >= len(rc.Via) {
+				continue
+			}
+			for _, phi := range rc.Via[k] {
+				if rx == phi {
+					return true
+				}
+			}
 		}
 	}
 	return false
@@ -760,4 +825,66 @@ func isDebugLog(cc *ssa.CallCommon) bool {
 		ok = false
 	})
 	return ok
+}
+
+// frameLoopFns returns the functions of drpcstream that write a message frame by frame: a call of
+// (*Writer).WriteFrame inside a loop. On the reviewed tree that is rawWriteLocked; the rules that are about
+// "the frame loop" find it by this content, so that they follow it through renames, signature changes and inlining.
+func frameLoopFns(c *an.Ctx) []*ssa.Function {
+	a := A(c)
+	wf := a.obj("drpcwire", "(*Writer).WriteFrame")
+	var out []*ssa.Function
+	for _, fn := range must(c.P.SourceFuncs("drpcstream")) {
+		found := false
+		for _, l := range an.Loops(fn) {
+			for b := range l.Blocks {
+				for _, in := range b.Instrs {
+					if ci, ok := in.(ssa.CallInstruction); ok && an.IsCallTo(ci.Common(), wf) {
+						found = true
+					}
+				}
+			}
+		}
+		if found {
+			out = append(out, fn)
+		}
+	}
+	return out
+}
+
+// splitConsumingLoop: the loop splits a buffer with drpcwire.SplitData and continues with the remainder it
+// returned (a strict remainder by C01.R7), so it ends when the data is exhausted.
+func splitConsumingLoop(c *an.Ctx, l *an.Loop) bool {
+	split := A(c).obj("drpcwire", "SplitData")
+	for b := range l.Blocks {
+		for _, in := range b.Instrs {
+			call, ok := in.(*ssa.Call)
+			if !ok || !an.IsCallTo(call.Common(), split) || len(call.Common().Args) == 0 {
+				continue
+			}
+			src := an.Resolve(call.Common().Args[0])
+			phi, isPhi := src.(*ssa.Phi)
+			if !isPhi || !l.Blocks[phi.Block()] {
+				// the split buffer may live in memory (captured or address-taken): a store of the remainder inside the loop
+				if u, isU := call.Common().Args[0].(*ssa.UnOp); isU {
+					if al, isAl := u.X.(*ssa.Alloc); isAl {
+						for _, ref := range *al.Referrers() {
+							if st, isSt := ref.(*ssa.Store); isSt && l.Blocks[st.Block()] {
+								if ex, isEx := an.Resolve(st.Val).(*ssa.Extract); isEx && ex.Tuple == ssa.Value(call) && ex.Index == 1 {
+									return true
+								}
+							}
+						}
+					}
+				}
+				continue
+			}
+			for _, e := range phi.Edges {
+				if ex, isEx := an.Resolve(e).(*ssa.Extract); isEx && ex.Tuple == ssa.Value(call) && ex.Index == 1 {
+					return true
+				}
+			}
+		}
+	}
+	return false
 }
